@@ -12,7 +12,8 @@ Line protocol of the generic walker model (shared by `Drivers/C14.lean`, `C15.le
 * `inv`    `invalidate_memoization`;  `short` whether `formula in self.memoization` can hit (plain `_get_key`)
 * `memo`   nodes memoised (with their specified value) before the first operation
 * ops      `w<n>` walk node n | `w<n>@<k>` walk n, exception injected at the k-th callback invocation of this walk
-           (k ≥ 1) | `w<n>!<a,b>` walk n, the callback raises at nodes a, b
+           (k ≥ 1) | `w<n>!<a,b>` walk n, the callback raises at nodes a, b | `w<n>#c<a>` walk n, `_get_children(a)`
+           raises | `w<n>#k<a>` walk n, `_get_key(a)` raises
 
 The callback of the model is the hash `h(n, args) = fold (acc·31 + a) mod 1000003` starting from `n + 1`; an injected
 exception carries the node at which it was raised.  The iteration budget is the proved bound `2·edges + 2`.
@@ -95,10 +96,20 @@ def parseReq (line : String) : Option Req :=
 
 inductive Op where
   | walk (n : Nat) (failAt : Option Nat) (failNodes : List Nat)
+  | walkFault (n : Nat) (children : Bool) (at_ : Nat)    -- `_get_children(at_)` / `_get_key(at_)` raises
 
 def parseOp (size : Nat) (s : String) : Option Op :=
   if !s.startsWith "w" then none else
   let body := (s.drop 1).toString
+  if (body.splitOn "#").length == 2 then
+    match body.splitOn "#" with
+    | [n, fl] => do
+      let n ← n.toNat?
+      let a ← (fl.drop 1).toString.toNat?
+      if n < size && a < size && (fl.startsWith "c" || fl.startsWith "k") then
+        some (.walkFault n (fl.startsWith "c") a) else none
+    | _ => none
+  else
   match body.splitOn "@" with
   | [n, k] => do
     let n ← n.toNat?
@@ -159,6 +170,16 @@ def runOps (r : Req) : Option String := do
         let base := s.trace.length
         let fa := failAt.map (fun k => base + k - 1)
         let (o, s') := walk g dir (cb fa failNodes) r.inv r.short fuel n s
+        let newCalls := (s'.trace.take (s'.trace.length - base)).reverse
+        let line := s!"{showOut o} c={showList r.full newCalls} st={s'.stack.length} " ++
+          s!"m={showList r.full (memoKeys size s'.memo)} p={s'.pushes - s.pushes} i={s'.iters - s.iters}"
+        (line :: outs, s')
+      | .walkFault n ch a =>
+        let base := s.trace.length
+        let flt : Faults Nat Nat :=
+          if ch then ⟨fun x => if x == a then some a else none, fun _ => none⟩
+          else ⟨fun _ => none, fun x => if x == a then some a else none⟩
+        let (o, s') := walkF g dir (cb none []) flt r.inv r.short fuel n s
         let newCalls := (s'.trace.take (s'.trace.length - base)).reverse
         let line := s!"{showOut o} c={showList r.full newCalls} st={s'.stack.length} " ++
           s!"m={showList r.full (memoKeys size s'.memo)} p={s'.pushes - s.pushes} i={s'.iters - s.iters}"
